@@ -9,7 +9,7 @@ import numpy as np
 import vlib
 from harness.speccommon import *
 
-LEVEL_TEXT = ('Lean 4 theorems about an executable model of Spectrum._ufunc/_interp_common (ufunc_pointwise, scalar_vector_elementwise, unit_handover_partial and operand_inside/outside are structural restatements of the model; the content is operand_is_interpolant — operands equal the independently defined piecewise-linear interpolant / the fill —, grid_spans_union_*, grid_step_le_requested and op_comm): the result at every grid point is '
+LEVEL_TEXT = ('Lean 4 theorems about an executable model of Spectrum._ufunc/_interp_common (ufunc_pointwise, scalar_vector_elementwise, unit_handover_partial and operand_inside/outside are structural restatements of the model; the content is operand_is_interpolant — operands equal the independently defined piecewise-linear interpolant / the fill —, grid_spans_union_*, grid_step_le_requested, grid_size_scale_invariant and op_comm): the result at every grid point is '
               'op(S1(g), S2(g)) with Si the linear interpolant inside operand i\'s range and the fill value outside; the grid starts at '
               'the smaller minimum and ends at the larger maximum; add/multiply (any commutative op) are commutative incl. the '
               'left/right sampling swap; scalar/vector operands act element-wise on the unchanged grid; the right operand is used '
@@ -40,9 +40,36 @@ W = ['m', 'um', 'nm', 'angstrom']
 MPU = {'m': Fraction(1), 'um': Fraction(1, 10**6), 'nm': Fraction(1, 10**9), 'angstrom': Fraction(1, 10**10)}
 OPSN = ['add', 'subtract', 'multiply', 'divide']
 
+def _extremes(rng, k):
+    """inputs a small random sample never reaches: common grids of > 2^16 samples, analytic (Blackbody) operands in another unit,
+    metre-valued operands with nanometre spacing"""
+    out = []
+    for i in range(k):
+        t = i % 3
+        if t == 0:
+            # very fine requested sampling: tens of thousands of grid points
+            n1, n2 = int(rng.integers(2, 6)), int(rng.integers(2, 6))
+            w1 = inc_grid(rng, n1, start=dyadic(rng, 300, 500, 2), bits=2, maxstep=120.0)
+            w2 = inc_grid(rng, n2, start=w1[0] + int(rng.integers(-8, 200)) * 0.25, bits=2, maxstep=120.0)
+            fn = OPSN[int(rng.integers(0, 3))]
+            u = W[int(rng.integers(0, 4))] if rng.integers(0, 2) else 'nm'
+            out.append({'kind': 'pair', 'form': 'method', 'fn': fn, 'w1': w1, 'v1': [dyadic(rng, 0, 16, 3) for _ in w1], 'w2': w2, 'v2': [dyadic(rng, 0, 16, 3) for _ in w2],
+                        'u1': u, 'u2': 'nm' if rng.integers(0, 2) else u, 'vu': None, 'sampling': 2.0 ** (int(np.floor(np.log2(max(w1[-1], w2[-1]) - min(w1[0], w2[0])))) - 16), 'fill': 0.0, 'fk': 'float',
+                        'rel': 'fine', 'dt1': 'float', 'dt2': 'float'})
+        else:
+            # a Spectrum combined with a Blackbody (analytic sample()) given on a coarse grid, in the same or another unit
+            w1 = inc_grid(rng, int(rng.integers(3, 8)), start=dyadic(rng, 400, 700, 2), bits=2, maxstep=120.0)
+            lo, hi = w1[0] - int(rng.integers(0, 100)), w1[-1] + int(rng.integers(0, 400))
+            nb = int(rng.integers(2, 5))
+            wb = [lo + (hi - lo) * j / (nb - 1) for j in range(nb)]
+            out.append({'kind': 'bb', 'fn': OPSN[int(rng.integers(0, 3))], 'w1': w1, 'v1': [dyadic(rng, 0, 16, 3) for _ in w1], 'wb': wb, 'temp': float(int(rng.integers(2500, 9000))),
+                        'u1': W[int(rng.integers(0, 4))], 'ub': W[int(rng.integers(0, 4))], 'vu': ['photlam', 'wlam', 'flam'][int(rng.integers(0, 3))], 'bb_left': bool(rng.integers(0, 4) == 0),
+                        'sampling': ['min', 'left', 'right'][int(rng.integers(0, 3))]})
+    return out
+
 def generate(rng, tier):
     n = {'quick': 200, 'thorough': 4000, 'search': 1000}[tier]
-    out = []
+    out = _extremes(rng, {'quick': 6, 'thorough': 90, 'search': 60}[tier])
     for i in range(n):
         t = i % 8
         if t < 6:
@@ -99,11 +126,13 @@ def generate(rng, tier):
     return out
 
 def signature(c):
+    if c['kind'] == 'bb': return f"bb {c['fn']} {c['u1']} {c['ub']} {c['vu']} {c['temp']} {c['bb_left']} {c['w1'][:2]} {len(c['wb'])}"
     if c['kind'] == 'pair': return f"pair {c.get('dt1')}/{c.get('dt2')} {c['fn']} {c['sampling']} {c['u1']} {c['u2']} {c['vu']} {len(c['w1'])} {len(c['w2'])} {c['w1'][:2]} {c['w2'][:2]}"
     return f"{c['kind']} {c['fn']} {len(c['w1'])} {c.get('c', len(c.get('v', [])))} {c['w1'][:2]}"
-def nontrivial(c): return c['kind'] != 'pair' or c['w1'] != c['w2'] or c['u1'] != c['u2']
+def nontrivial(c): return c['kind'] != 'pair' or c.get('rel') == 'fine' or c['w1'] != c['w2'] or c['u1'] != c['u2']
 def tags(c):
     t = [c['kind'], 'op:' + c['fn']]
+    if c['kind'] == 'bb': return t + ['bb:' + ('left' if c['bb_left'] else 'right'), 'bb:units=' + ('same' if c['u1'] == c['ub'] else 'mixed')]
     if 'fk' in c: t.append('fill:' + c['fk'])
     t.append('dtype:' + c.get('dt1', 'float') + ('/' + c['dt2'] if 'dt2' in c else ''))
     t += NOTES.pop(id(c), [])
@@ -186,6 +215,19 @@ def impl(c):
                 _pair(c, R, s1, s2, o)
             if g.msg: return {'guard': g.msg, 's1': o['s1'], 's2': o['s2']}
             return o
+        if k == 'bb':
+            f1 = float(MPU['nm'] / MPU[c['u1']]); fb = float(MPU['nm'] / MPU[c['ub']])
+            s1 = R.Spectrum(np.array(c['w1']) * f1, np.array(c['v1']), waveunit=c['u1'], valueunit=c['vu'])
+            bb = R.Blackbody(np.array(c['wb']) * fb, c['temp'], waveunit=c['ub'], valueunit=c['vu'])
+            a, b = (bb, s1) if c['bb_left'] else (s1, bb)
+            snaps = (_snap(a), _snap(b))
+            o = {}
+            g = guard()
+            with g:
+                r = getattr(a, c['fn'])(b, sampling=c['sampling'])
+                o = {'res': _out(r), 'unchanged': (_snap(a) == snaps[0], _snap(b) == snaps[1]), 'H': R.H, 'C': R.C, 'K': R.K}
+            if g.msg: return {'guard': g.msg}
+            return o
         s1 = R.Spectrum(np.array(c['w1']), np.array(c['v1']).astype(DT[c.get('dt1', 'float')]))
         return _single(c, R, s1)
 
@@ -233,6 +275,8 @@ def _single(c, R, s1):
 def requests(c, io):
     if '_harness_exc' in io or 'guard' in io: return []
     k = c['kind']
+    if k == 'bb': return []
+    if k == 'pair' and len(io['res']['wave']) > 6000: return []      # very fine grids: oracle only (grid laws + pointwise recomputation)
     if k == 'pair':
         sp = lambda o: {'wave': qs(o['wave']), 'value': qs(o['value']), 'wu': o['wu'], 'vu': o['vu']}
         sm = c['sampling'] if isinstance(c['sampling'], str) else q(io['sampling'])
@@ -262,8 +306,40 @@ def compare(c, io, mo):
 NOTES = {}
 NP = {'add': np.add, 'subtract': np.subtract, 'multiply': np.multiply, 'divide': np.true_divide, 'power': np.power, 'rmul': np.multiply}
 
+def _planck_ref(lam_nm, T, u, vu, H, C, K):
+    """Planck radiance at lam_nm, as a density per unit `u` in flux unit `vu`, from the physical formula"""
+    lam = lam_nm * 1e-9
+    L = 2 * H * C ** 2 / (lam ** 5 * (np.exp(H * C / (lam * K * T)) - 1))           # W m^-2 sr^-1 m^-1
+    per_w = {'photlam': H * C / lam, 'flam': 1e-3, 'wlam': 1.0}[vu]
+    return L / per_w * float(MPU[u])
+
+def _oracle_bb(c, io):
+    r = io['res']
+    lead_u = c['ub'] if c['bb_left'] else c['u1']
+    if r['wu'] != lead_u or r['vu'] != c['vu']: return f"result units {r['wu']},{r['vu']}"
+    if not all(io['unchanged']): return 'an operand was changed by the operation'
+    fl = float(MPU[lead_u] / MPU['nm'])
+    g = np.array(r['wave']) * fl                       # grid in nm
+    w1, wb = np.array(c['w1']), np.array(c['wb'])
+    lo, hi = min(w1[0], wb[0]), max(w1[-1], wb[-1])
+    if not close(g[0], lo, 1e-12) or not close(g[-1], hi, 1e-12): return f'grid spans [{g[0]}, {g[-1]}] nm, union of the ranges is [{lo}, {hi}]'
+    dmin = min(np.diff(w1).min(), np.diff(wb).min())
+    tol = 1e-6 * dmin
+    kden = float(MPU[lead_u] / MPU[c['u1']])           # s1's density per u1 -> per lead unit
+    for i, x in enumerate(g):
+        if any(0 < abs(x - e) < 2 * tol for e in (w1[0], w1[-1], wb[0], wb[-1])): continue
+        a = 0.0 if (x < w1[0] - tol or x > w1[-1] + tol) else float(np.interp(min(max(x, w1[0]), w1[-1]), w1, np.array(c['v1']))) * kden
+        # the Blackbody operand is analytic: its sample() evaluates Planck's law, it does not interpolate its stored grid
+        b = 0.0 if (x < wb[0] - tol or x > wb[-1] + tol) else _planck_ref(min(max(x, wb[0]), wb[-1]), c['temp'], lead_u, c['vu'], io['H'], io['C'], io['K'])
+        want = float(NP[c['fn']](b, a) if c['bb_left'] else NP[c['fn']](a, b))
+        if not close(r['value'][i], want, 1e-9, 1e-12 * (1 + abs(want))):
+            return (f"{'Blackbody' if c['bb_left'] else 'Spectrum'}[{lead_u}] {c['fn']} {'Spectrum' if c['bb_left'] else 'Blackbody'}[{c['u1'] if c['bb_left'] else c['ub']}]: value at {x} nm is {r['value'][i]!r}; "
+                    f"{c['fn']} of the operands there (Blackbody = Planck's law at {c['temp']} K) is {want!r}")
+    return None
+
 def oracle(c, io):
     k = c['kind']
+    if k == 'bb' and 'guard' not in io: return _oracle_bb(c, io)
     if 'guard' in io:
         return ('grid does not span the union at the requested sampling: the operation on %d and %d samples tried to build an absurd grid (%s)'
                 % (len(c['w1']), len(c.get('w2', [])), io['guard']))
@@ -302,19 +378,24 @@ def oracle(c, io):
         n = int(np.ceil((hi - lo) / dw - 1e-6))
         if len(g) - 1 != max(n, 1) and abs((hi - lo) / dw - round((hi - lo) / dw)) > 1e-6: return f'grid has {len(g) - 1} intervals, ceil(span/Δ) = {n}'
     tol = 1e-6 * dw
-    def S(w, v, x):
-        if x < w[0] - tol or x > w[-1] + tol: return c['fill']
-        return float(np.interp(min(max(x, w[0]), w[-1]), w, v))
-    for i, x in enumerate(g):
-        near_edge = any(abs(x - e) < 2 * tol and abs(x - e) > 0 for e in (w1[0], w1[-1], w2[0], w2[-1]))
-        a = S(w1, np.array(c['v1']), x); b = S(w2, np.array(c['v2']), x)
-        if c['vu'] is not None:
-            # densities are stored per unit of the left operand; fill values are not rescaled
-            a = a * kden if not (x < w1[0] - tol or x > w1[-1] + tol) else a
-            b = b * kden if not (x < w2[0] - tol or x > w2[-1] + tol) else b
-        want = float(NP[c['fn']](a, b))
-        if not close(r['value'][i], want, 1e-9, atol) and not near_edge:
-            return f"value at {x} nm is {r['value'][i]!r}; {c['fn']}(S1, S2) = {c['fn']}({a!r}, {b!r}) = {want!r}"
+    def S(w, v):
+        inside = (g >= w[0] - tol) & (g <= w[-1] + tol)
+        return np.where(inside, np.interp(np.clip(g, w[0], w[-1]), w, v), c['fill']), inside
+    a, in1 = S(w1, np.array(c['v1'], dtype=float))
+    b, in2 = S(w2, np.array(c['v2'], dtype=float))
+    if c['vu'] is not None:
+        # densities are stored per unit of the left operand; fill values are not rescaled
+        a = np.where(in1, a * kden, a); b = np.where(in2, b * kden, b)
+    with np.errstate(all='ignore'):
+        want = NP[c['fn']](a, b)
+    near_edge = np.zeros(len(g), dtype=bool)
+    for e in (w1[0], w1[-1], w2[0], w2[-1]):
+        near_edge |= (np.abs(g - e) < 2 * tol) & (np.abs(g - e) > 0)
+    got = np.array(r['value'])
+    bad = ~near_edge & ~((got == want) | (np.abs(got - want) <= 1e-9 * np.maximum(np.abs(got), np.abs(want)) + atol))
+    if bad.any():
+        i = int(np.argmax(bad))
+        return f"value at {g[i]} nm is {r['value'][i]!r}; {c['fn']}(S1, S2) = {c['fn']}({a[i]!r}, {b[i]!r}) = {float(want[i])!r}"
     if 'swapped' in io:
         s = io['swapped']
         if len(s['wave']) != len(r['wave']) or not all_close(s['wave'], r['wave'], 1e-12) or not all_close(s['value'], r['value'], 1e-9, atol):
